@@ -101,6 +101,17 @@ class Ctx:
         name = f"{base}!{k}"
         return z3.Real(name) if sort == "real" else z3.Bool(name) if sort == "bool" else z3.Int(name)
 
+    def _check(self, extra, ms):
+        self.n_feas_checks += 1
+        self.solver.push()
+        try:
+            self.solver.set("timeout", int(ms))
+            self.solver.add(extra)
+            return self.solver.check()
+        finally:
+            self.solver.pop()
+            self.solver.set("timeout", self.feas_timeout_ms)
+
     def feasible(self, extra):
         self.n_feas_checks += 1
         self.solver.push()
@@ -120,11 +131,22 @@ class Ctx:
             self.alts.append(False)
             self.add(cond if val else z3.Not(cond), "branch")
             return val
-        t_ok = self.feasible(cond)
-        f_ok = self.feasible(z3.Not(cond))
-        if not t_ok and not f_ok:
-            # path condition itself infeasible (or solver gave contradictory unknowns)
+        # Only `unsat` is informative (unknown => explore, which is sound).  A short first round catches the common case in
+        # which one side is refuted at once: the other side is then feasible iff the path is, and the expensive query on it
+        # (typically `unknown` after the full budget on non-linear path conditions) is not needed.
+        short = min(400, self.feas_timeout_ms)
+        r_t = self._check(cond, short)
+        r_f = self._check(z3.Not(cond), short)
+        if r_t == z3.unsat and r_f == z3.unsat:
             raise PathAbort("infeasible path")
+        if r_t == z3.unsat or r_f == z3.unsat:
+            t_ok, f_ok = r_t != z3.unsat, r_f != z3.unsat
+        else:
+            t_ok = True if r_t == z3.sat else self.feasible(cond)
+            f_ok = True if r_f == z3.sat else self.feasible(z3.Not(cond))
+            if not t_ok and not f_ok:
+                # path condition itself infeasible (or solver gave contradictory unknowns)
+                raise PathAbort("infeasible path")
         if t_ok:
             val = True
             alt = f_ok
